@@ -611,6 +611,23 @@ pub fn e2_jobs(prop: &str, tier: Tier) -> Vec<E2Job> {
                 }
                 jobs.push(E2Job { label: "thread-local plans with a panicking ordinary system".into(), scenarios: scs, bounds: b(1), delay: false });
             }
+            {
+                // async dispatcher: whatever is called between dispatch and wait (polling, the other accessors, a
+                // second dispatch), the wait that follows a dispatch runs every thread-local system once
+                let mut scs = Vec::new();
+                for p in tl(2) {
+                    let info = PlanInfo::of(&p);
+                    if !info.nodes.iter().any(|n| n.kind == crate::spec::Kind::Tl && n.parent.is_none()) {
+                        continue;
+                    }
+                    for script in ["DW", "DRW", "DRRW", "DXW", "DOW", "DMW", "DSW", "DWW", "DWDW", "DDW", "DXDW", "DRDRW", "DWRW"] {
+                        let mut sc = Scenario::plain(p.clone(), Mode::Async, 0);
+                        sc.script = Some(script.to_string());
+                        scs.push(sc);
+                    }
+                }
+                jobs.push(E2Job { label: "async scripts over thread-local plans (<= 2 ops): polling / accessors / second dispatch between dispatch and wait".into(), scenarios: scs, bounds: b(if q { 1 } else { 2 }), delay: false });
+            }
             jobs.push(E2Job { label: "thread-local plans, 3 ops".into(), scenarios: scen(&tl(3).into_iter().filter(|p| p.len() == 3).collect::<Vec<_>>(), &[Mode::Dispatch, Mode::Async], &[1]), bounds: b(if q { 1 } else { 2 }), delay: false });
             if !q {
                 jobs.push(E2Job { label: "thread-local plans, 4 ops".into(), scenarios: scen(&tl(4).into_iter().filter(|p| p.len() == 4).collect::<Vec<_>>(), &[Mode::Dispatch], &[1]), bounds: b(1), delay: false });
@@ -740,8 +757,14 @@ pub fn run_scenarios(scs: &[Scenario], mon: Mon, opts: &ExploreOpts) -> MultiRes
 // C11: side-by-side systems really run in parallel
 // ---------------------------------------------------------------------------
 
+std::thread_local! {
+    /// running-time hint of the systems of `wide_stage` (C11 sweeps it: code may treat "cheap" stages differently)
+    static WIDE_HINT: std::cell::Cell<u8> = const { std::cell::Cell::new(3) };
+}
+
 fn wide_stage(w: usize) -> Vec<Op> {
-    (0..w).map(|i| Op::Sys(crate::spec::SysSpec { name: format!("s{}", i), reads: vec![], writes: vec![], time: 3, deps: vec![] })).collect()
+    let t = WIDE_HINT.with(|h| h.get());
+    (0..w).map(|i| Op::Sys(crate::spec::SysSpec { name: format!("s{}", i), reads: vec![], writes: vec![], time: t, deps: vec![] })).collect()
 }
 
 fn c11_scenarios(w: usize, n: usize) -> Vec<(String, Scenario)> {
@@ -846,6 +869,8 @@ pub fn run_c11(tier: Tier, budget: Duration, frag: &mut Frag) {
     } else {
         cfgs.extend([(3, 2, false), (4, 1, false), (4, 3, true), (5, 2, true), (6, 2, true), (8, 2, true), (12, 1, true), (16, 1, true)]);
     }
+    // cheap configurations first (delay-bounded ones, then by width): what they do not use is passed on
+    cfgs.sort_by_key(|(w, b, delay)| (!*delay && *w >= 3, *w as u32 * (*b + 1)));
     let mut neg_deadlocks = 0u64;
     let mut neg_runs = 0u64;
     let ncfg = cfgs.len() as u32;
@@ -856,7 +881,15 @@ pub fn run_c11(tier: Tier, budget: Duration, frag: &mut Frag) {
         for (ni, n) in [w, w + 1].into_iter().enumerate() {
             // the second pool size gets at least the second half of the configuration's share
             let deadline = if ni == 0 { Instant::now() + deadline.saturating_duration_since(Instant::now()) / 2 } else { deadline };
-            let scs: Vec<Scenario> = c11_scenarios(w, n).into_iter().map(|x| x.1).collect();
+            let mut scs: Vec<Scenario> = c11_scenarios(w, n).into_iter().map(|x| x.1).collect();
+            if w <= 4 && ni == 0 {
+                // the same stages made of systems that call themselves very cheap / very expensive
+                for hint in [1u8, 5] {
+                    WIDE_HINT.with(|h| h.set(hint));
+                    scs.extend(c11_scenarios(w, n).into_iter().map(|x| x.1).filter(|s| s.script.is_none()));
+                    WIDE_HINT.with(|h| h.set(3));
+                }
+            }
             let opts = ExploreOpts { bounds: (0..=bound).collect(), all_points: false, deadline, max_execs: u64::MAX, keep_traces: 1, deadlock_prop: Some("C11"), delay_mode: delay };
             let t0 = Instant::now();
             let r = run_scenarios(&scs, mon, &opts);
